@@ -11,6 +11,7 @@ from __future__ import annotations
 import implenv  # noqa: F401
 
 import asyncio
+import os
 
 import vtime
 import workrun
@@ -23,6 +24,7 @@ ASSUMPTIONS = ["overshoot of messages_limit that the Lean runner model reproduce
                "any other overshoot, loss or stall is a violation"]
 F4 = "F4-messages-limit-checked-only-on-completion"
 F24 = "F24-redis-finish-leaves-fetch-in-flight"
+F26 = "F26-rabbit-cancelled-handover-stays-unacked"
 
 
 def make_scenario(rng: Rng) -> dict:
@@ -54,13 +56,14 @@ async def scenario(sc: dict) -> WorkerRun:
     for _ in range(5):
         await asyncio.sleep(0)
     if sc.get("broker") == "rabbit":
-        # on RabbitMQ the in-flight state lives in the channel: "afterwards" is after the worker's connection is closed
-        # (every unacknowledged delivery then returns to its queue — the server's guarantee, assumption set A); as in C03
+        # on RabbitMQ the consumer's last rejects are given the time to happen (as in C03); the state is then read while the
+        # worker's connection is still open
         await asyncio.sleep(0.3)
+    run.final = {q: run.msg_params(q) for q in set(sc["actors"].values())}
+    if sc.get("broker") == "rabbit":
         await run.broker.disconnect()
         for _ in range(6):
             await asyncio.sleep(0)
-    run.final = {q: run.msg_params(q) for q in set(sc["actors"].values())}
     return run
 
 
@@ -97,6 +100,7 @@ def check(run: WorkerRun, model: Model, res: Result, label: str) -> None:
                 observed={"finished": len(finished)}, expected=f">= {M}",
                 finding=F4 if (accepted and sc["consumer_latency_us"]) else None)
     # what is left: every message executed (gone) or present exactly once, waiting, counter untouched
+    n_f26 = 0
     for j in sc["jobs"]:
         here = run.final[j["queue"]].get(j["id"], [])
         was_started = j["id"] in started
@@ -110,10 +114,16 @@ def check(run: WorkerRun, model: Model, res: Result, label: str) -> None:
             paused_at_finish = all(e.get("paused") is not False for e in run.events if e["kind"] == "consumer_finish")
             f24 = (sc.get("broker") == "redis" and not delivered and not was_started and len(here) == 1 and paused_at_finish
                    and here[0]["place"] == "processing" and here[0]["tried"] == 0)
+            # RabbitMQ: taken out of the consumer's local queue by the consume() call that the stop cancelled before it could hand
+            # the message over (at most one per consumer and run) — unacknowledged until the connection closes (F26)
+            f26 = (sc.get("broker") == "rabbit" and not delivered and not was_started and len(here) == 1
+                   and here[0]["place"] == "processing" and here[0]["tried"] == 0 and n_f26 < len(sc["actors"]))
+            n_f26 += int(f26)
             res.bad("impl", "a message beyond messages_limit was lost, duplicated, left in-flight or counted as retried",
                     case=dict(case, message=j["id"]), observed={"started": was_started, "present": here},
-                    expected="executed and gone, or waiting exactly once with already_tried = 0", finding=F24 if f24 else None)
-            if not f24:
+                    expected="executed and gone, or waiting exactly once with already_tried = 0",
+                    finding=F24 if f24 else (F26 if f26 else None))
+            if not (f24 or f26):
                 break
 
 
